@@ -48,7 +48,7 @@ func sortNaturalFilter(array []any, key any) any {
 		if v == nil {
 			return ""
 		}
-		return strings.ToUpper(fmt.Sprint(v))
+		return strings.ToUpper(fmt.Sprint(values.ResolveDrops(v)))
 	}})
 	return result
 }
